@@ -239,3 +239,4 @@ pub fn draw_body_frag() -> BodyFrag {
 pub fn draw_delay() -> u64 {
     simkit::with(|s| *s.tape.pick(&[0u64, 0, 1_000_000, 50_000_000, 2_000_000_000]))
 }
+
